@@ -533,11 +533,17 @@ func (d *DNSFilter) BlockedResponseTTL() (ttl uint32) {
 
 // SafeBrowsingBlockHost returns a host for safe browsing blocked responses.
 func (d *DNSFilter) SafeBrowsingBlockHost() (host string) {
+	d.confMu.RLock()
+	defer d.confMu.RUnlock()
+
 	return d.conf.SafeBrowsingBlockHost
 }
 
 // ParentalBlockHost returns a host for parental protection blocked responses.
 func (d *DNSFilter) ParentalBlockHost() (host string) {
+	d.confMu.RLock()
+	defer d.confMu.RUnlock()
+
 	return d.conf.ParentalBlockHost
 }
 
